@@ -3,6 +3,7 @@
 -/
 import Jawk.Lemmas.ParseRender
 import Jawk.Model.Run
+import Jawk.Lemmas.ArgsOrder
 namespace Jawk.C18
 open Jawk
 
@@ -167,5 +168,32 @@ theorem unknown_direction_rejected (s : Str) (e : Expr) (r2 : Reader)
       (trimStr t).map upperChar ≠ "DESC".toList) :
     parseSorterParts s = .ok (e, t) ∧ parseSorter s = .error "UnknownOrder" :=
   PR.parseSorter_unknown_direction s e r2 hget bs hr2 hf t hdec hdir
+
+
+/-! ### rejected by the command-line parser itself (model of clap: `Jawk/Model/Args.lean`)
+
+`main` calls `Cli::parse()` before `go`: a rejected command line never reaches the code that opens the input
+or builds the output; in the model the run is simply not defined for it (`parseArgs = none`). -/
+
+/-- an option that may occur once given twice (under any of its names), a flag with a value, a value outside an
+enumeration, a malformed number, an unknown option: each is rejected wherever it stands among valid arguments -/
+theorem command_line_rejections :
+    (Args.parseArgs ["--take=1".toList, "--select=.a".toList, "--limit=2".toList]).isNone = true ∧
+    (Args.parseArgs ["--unique".toList, "x.json".toList, "--unique".toList]).isNone = true ∧
+    (Args.parseArgs ["--merge".toList, "--group-by=.g".toList]).isNone = true ∧
+    (Args.parseArgs ["--only-objects-and-arrays=true".toList]).isNone = true ∧
+    (Args.parseArgs ["--on-error=Ignore".toList]).isNone = true ∧
+    (Args.parseArgs ["--skip=abc".toList]).isNone = true ∧
+    (Args.parseArgs ["--skip=".toList]).isNone = true ∧
+    (Args.parseArgs ["--skip=18446744073709551616".toList]).isNone = true ∧
+    (Args.parseArgs ["--no-such-option=1".toList]).isNone = true ∧
+    (Args.parseArgs ["--skip=+1".toList, "--take=18446744073709551615".toList]).isSome = true := by
+  decide +kernel
+
+/-- rejection does not depend on where the offending argument stands -/
+theorem rejection_is_order_free (a b : List Str)
+    (h : Args.SameUpToFamilyOrder (a.map Args.lex) (b.map Args.lex)) :
+    (Args.parseArgs a).isNone = (Args.parseArgs b).isNone := by
+  rw [Args.parseArgs_order_independent a b h]
 
 end Jawk.C18
